@@ -237,7 +237,11 @@ def _(u):
     td = SymTD({"reward_key": u.tensor("tdval", (K * B, 3), "f")}, (K * B,))
     env = u.ns(get_reward=lambda td_, a_: rew)  # env.get_reward abstracted: one reward per replicated row
     strat = u.obj(DEC, "Greedy", num_starts=K)
-    lo, ao, tdo, _ = u.run(DEC, "DecodingStrategy._select_best", logp, act, td, env, selfobj=strat)
+    lo, ao, tdo, _ = u.run(DEC, "DecodingStrategy._select_best", logp, act, td, env, selfobj=strat, record=False)
+    u.native("decoding.select_best")   # the env is a stub: replay natively with an env whose get_reward returns the witness rewards
+    u.native_out("logprobs", lo)
+    u.native_out("actions", ao)
+    u.native_out("td.reward_key", tdo["reward_key"])
     b = u.idx((B,), "b")
     t = u.idx((T,), "t")
     j = u.idx((K,), "j")
@@ -371,6 +375,9 @@ def _(u):
     obj = u.obj(AMD, "PrecomputedCache", node_embeddings=ne, graph_context=gc, glimpse_key=gk, glimpse_val=gv, logit_key=lk,
                 fields=(ne, gc, gk, gv, lk))
     out = u.run(AMD, "PrecomputedCache.batchify", K, selfobj=obj, record=False)
+    u.native("am.decoder.cache.batchify")
+    for name_ in ("node_embeddings", "graph_context", "glimpse_key", "glimpse_val", "logit_key"):
+        u.native_out(name_, out._attrs[name_])
     r = u.idx((K * B,), "r")
     n, e = u.idx((N, E), "n e")
     # every cached tensor of replicated row r belongs to instance r mod B (same layout as the replicated TensorDict)
